@@ -221,3 +221,86 @@ Theorem C15_restart_index_clamped : forall (i : nat) (x : Z),
   Z.to_nat (Z.min (Z.of_nat i) x) = Z.to_nat (Z.max 0 (Z.min (Z.of_nat i) x)).
 Proof. exact restart_clamped. Qed.
 Print Assumptions C15_restart_index_clamped.
+
+(* ------------------------------------------------------------------------------------------ *)
+(* THE MODEL IS THE C TEXT (coq/TrLbufGlob.v): lbuf_globset / lbuf_globget of /repo/lbuf.c, translated by tools/c2clite.py into
+   CLite terms (coq/GenCFuncs.v, whitelist tools/c2clite.d/50_lbuf.list), RUN on a memory in which block bl is the struct lbuf
+   (cell 65 = ln_glob points to block bg) and block bg is the char array ln_glob holding the bits of the model's lines
+   (TrLbufGlob.glob_rep: cell i = the char (signed) whose byte is lgl of line i, lgl < 256; cells beyond the lines: anything).
+   For every line pos of the buffer and every nesting depth 0..7 the call returns what ExDefs computes (N.testbit) and leaves
+   the memory in which exactly cell pos of ln_glob is changed to the model's new bits (N.setbit / N.clearbit) -- no load or
+   store outside a block, no overflow.  dep <= 7 CANNOT be dropped: the bit 1 << dep is computed in int and stored into a char. *)
+From NV Require Import CLite CLiteProps GenCFuncs TrLbufBase TrLbufGlob.
+
+Theorem C15_tr_lbuf_globset : forall m bl blk bg gblk (l : lbuf) pos x dep d fuel,
+  nth_error m bl = Some blk -> nth_error blk L_ln_glob = Some (VPtr bg 0) -> glob_rep m bg gblk (lns l) ->
+  nth_error (lns l) pos = Some x -> (dep <= 7)%N ->
+  let gblk' := upd gblk pos (VInt (sb (N.setbit (lgl x) dep))) in
+  callf cprog fuel (S d) F_lbuf_globset [VPtr bl 0; VInt (Z.of_nat pos); VInt (Z.of_N dep)] m = Ok (VUndef, upd m bg gblk')
+  /\ glob_rep (upd m bg gblk') bg gblk' (lns (lbuf_globset l pos dep)).
+Proof. exact tr_lbuf_globset. Qed.
+Print Assumptions C15_tr_lbuf_globset.
+
+Theorem C15_tr_lbuf_globget : forall m bl blk bg gblk (l : lbuf) pos x dep d fuel,
+  nth_error m bl = Some blk -> nth_error blk L_ln_glob = Some (VPtr bg 0) -> glob_rep m bg gblk (lns l) ->
+  nth_error (lns l) pos = Some x -> (dep <= 7)%N ->
+  let gblk' := upd gblk pos (VInt (sb (N.clearbit (lgl x) dep))) in
+  callf cprog fuel (S d) F_lbuf_globget [VPtr bl 0; VInt (Z.of_nat pos); VInt (Z.of_N dep)] m
+    = Ok (VInt (b2z (snd (lbuf_globget l pos dep))), upd m bg gblk')
+  /\ glob_rep (upd m bg gblk') bg gblk' (lns (fst (lbuf_globget l pos dep))).
+Proof. exact tr_lbuf_globget. Qed.
+Print Assumptions C15_tr_lbuf_globget.
+
+(* WHAT THE C TEXT DOES AT NESTING DEPTH 8..30 (found while proving the two theorems above; the model has no such limit):
+   lbuf_globset stores NOTHING (the mark is lost: a global nested 8 deep visits only its first line), and lbuf_globget
+   answers with the DEPTH-7 mark of the line (a char with bit 7 set is negative and sign-extends into every higher bit)
+   and clears nothing -- so in ec_glob `while (i < lbuf_len(xb) && !lbuf_globget(xb, i, xgdep)) i++` stops at the same line
+   for ever when the enclosing depth-7 global has marked it: `g/a/g/a/g/a/g/a/g/a/g/a/%g/a/%g/a/p` on a four-line file of
+   a's does not terminate (observed on the real editor).  At depth 31 and above 1 << dep is undefined behaviour. *)
+Theorem C15_tr_lbuf_globset_depth8_lost : forall m bl blk bg gblk (l : lbuf) pos x dep d fuel,
+  nth_error m bl = Some blk -> nth_error blk L_ln_glob = Some (VPtr bg 0) -> glob_rep m bg gblk (lns l) ->
+  nth_error (lns l) pos = Some x -> (8 <= dep <= 30)%N ->
+  callf cprog fuel (S d) F_lbuf_globset [VPtr bl 0; VInt (Z.of_nat pos); VInt (Z.of_N dep)] m = Ok (VUndef, m).
+Proof. exact tr_lbuf_globset_lost. Qed.
+Print Assumptions C15_tr_lbuf_globset_depth8_lost.
+
+Theorem C15_tr_lbuf_globget_depth8_reads_depth7 : forall m bl blk bg gblk (l : lbuf) pos x dep d fuel,
+  nth_error m bl = Some blk -> nth_error blk L_ln_glob = Some (VPtr bg 0) -> glob_rep m bg gblk (lns l) ->
+  nth_error (lns l) pos = Some x -> (8 <= dep <= 30)%N ->
+  callf cprog fuel (S d) F_lbuf_globget [VPtr bl 0; VInt (Z.of_nat pos); VInt (Z.of_N dep)] m
+    = Ok (VInt (b2z (glob_marked 7 x)), m).
+Proof. exact tr_lbuf_globget_high. Qed.
+Print Assumptions C15_tr_lbuf_globget_depth8_reads_depth7.
+
+Theorem C15_tr_lbuf_globset_depth31_undefined : forall m bl blk bg gblk (l : lbuf) pos x dep d fuel,
+  nth_error m bl = Some blk -> nth_error blk L_ln_glob = Some (VPtr bg 0) -> glob_rep m bg gblk (lns l) ->
+  nth_error (lns l) pos = Some x -> (31 <= dep)%N ->
+  callf cprog fuel (S d) F_lbuf_globset [VPtr bl 0; VInt (Z.of_nat pos); VInt (Z.of_N dep)] m = Err EOverflow.
+Proof. exact tr_lbuf_globset_overflow. Qed.
+Print Assumptions C15_tr_lbuf_globset_depth31_undefined.
+
+(* not vacuous, and the translated functions RUN: a three-line buffer whose lines carry the bits 0, 2 (depth 1), 128 (depth 7);
+   the struct in block 12, ln_glob (capacity 4) in block 13.  globset(1, 2) stores 6 into cell 1;
+   globget(1, 1) returns 1 and stores 0; globget(2, 7) returns 1 on the negative char and stores 0; globget(0, 1) returns 0;
+   at depth 8 globset changes nothing and globget reports the depth-7 mark of line 2 without clearing it *)
+Example C15_tr_nonvacuous :
+  let l0 := mklb [mkline 0 0 [97]; mkline 1 2 [98]; mkline 2 128 [99]]%N [] [] 0 1 0 0 3 in
+  let blk0 := repeat (VInt (-1)) 32 ++ repeat (VInt 0) 32 ++
+              [VInt 0; VPtr 13 0; VInt 3; VInt 4; VInt 1; VInt 0; VInt 0; VInt 0; VInt 0; VInt 0; VInt 0] in
+  let g0 := [VInt 0; VInt 2; VInt (-128); VInt 77] in
+  let m0 := repeat [] 12 ++ [blk0; g0] in
+  let run f (pos dep : Z) m := callf cprog 1 2 f [VPtr 12 0; VInt pos; VInt dep] m in
+  glob_rep m0 13 g0 (lns l0) /\
+  run F_lbuf_globset 1%Z 2%Z m0 = Ok (VUndef, upd m0 13 [VInt 0; VInt 6; VInt (-128); VInt 77]) /\
+  lgl (nth 1 (lns (lbuf_globset l0 1 2)) dline) = 6%N /\
+  run F_lbuf_globget 1%Z 1%Z m0 = Ok (VInt 1, upd m0 13 [VInt 0; VInt 0; VInt (-128); VInt 77]) /\
+  run F_lbuf_globget 2%Z 7%Z m0 = Ok (VInt 1, upd m0 13 [VInt 0; VInt 2; VInt 0; VInt 77]) /\
+  run F_lbuf_globget 0%Z 1%Z m0 = Ok (VInt 0, upd m0 13 g0) /\
+  run F_lbuf_globset 0%Z 8%Z m0 = Ok (VUndef, upd m0 13 g0) /\ upd m0 13 g0 = m0 /\
+  run F_lbuf_globget 2%Z 8%Z m0 = Ok (VInt 1, upd m0 13 g0) /\
+  run F_lbuf_globget 5%Z 1%Z m0 = Err EOob.
+Proof.
+  cbv zeta. split.
+  { split; [reflexivity|]. intros [|[|[|i]]] y Hy; cbn in Hy; [inversion Hy; subst; split; reflexivity ..|destruct i; discriminate]. }
+  vm_compute. repeat split.
+Qed.
